@@ -718,10 +718,10 @@ impl IterState {
         match iter.find(|(_, &b)| b == quote) {
             // Input: `    key  =  "   "`
             //                         ^
-            Some((e, b'"')) => Some(e),
+            Some((e, b'"')) => Some(e + 1),
             // Input: `    key  =  '   '`
             //                         ^
-            Some((e, _)) => Some(e),
+            Some((e, _)) => Some(e + 1),
 
             // Input: `    key  =  "   `
             // Input: `    key  =  '   `
@@ -845,7 +845,8 @@ impl IterState {
 
         let key = match self.check_for_duplicates(slice, key) {
             Err(e) => {
-                self.state = State::SkipEqValue(offset);
+                // +1 to skip the `=`
+                self.state = State::SkipEqValue(offset + 1);
                 return Some(Err(e));
             }
             Ok(key) => key,
